@@ -1,2 +1,203 @@
-def r18d(ctx, rep):
-    pass
+"""S6: recover constant tables from switches and string-compare chains; table-agreement rules."""
+from ..facts import callee, op_const, op_place, short_path
+from .common import *
+
+TOKEN_TYPE = "marwood::lex::TokenType"
+
+
+def char_switches(fn):
+    """switches whose operand is a char: list of (bb, {codepoint: target}, otherwise, term)"""
+    out = []
+    for bb, b in enumerate(fn.blocks):
+        if b.get("cleanup"):
+            continue
+        t = b["term"]
+        if t["k"] == "switch" and t.get("opty") == "char":
+            out.append((bb, {v: tg for v, tg in t["targets"]}, t["otherwise"], t))
+    return out
+
+
+def str_eq_consts(fn):
+    """string constants compared with `<str as PartialEq>::eq`: list of (string, bb, term)"""
+    out = []
+    for bb, t in fn.calls():
+        if (t.get("fnargs") or "").startswith("<str as std::cmp::PartialEq>::eq"):
+            for a in t["args"]:
+                c = op_const(a)
+                if c is not None and "str" in c:
+                    out.append((c["str"], bb, t))
+    return out
+
+
+def arm_effects(fn, start, stop=None, limit=40):
+    """calls and aggregates on the straight-line/forward region starting at `start` (BFS, bounded),
+    not crossing blocks in `stop`"""
+    stop = stop or set()
+    seen, order = {start}, [start]
+    i = 0
+    calls, aggs = [], []
+    while i < len(order) and len(order) < limit:
+        b = order[i]
+        i += 1
+        blk = fn.blocks[b]
+        for s in blk["stmts"]:
+            if s["rv"]["k"] == "agg" and s["rv"].get("adt", "").startswith("marwood"):
+                aggs.append((s["rv"]["adt"], s["rv"].get("variant")))
+        t = blk["term"]
+        if t["k"] == "call":
+            calls.append(callee(t))
+        for s_ in fn.succ[b]:
+            if s_ not in seen and s_ not in stop:
+                seen.add(s_)
+                order.append(s_)
+    return calls, aggs
+
+
+def r11c(ctx, rep, rule="R11c"):
+    facts = ctx["facts"]
+    rep.rule(rule, "dispatcher/handler agreement in the reader: (i) the characters on which lex::scan calls "
+             "scan_simple_token are exactly the characters scan_simple_token maps to a token type (its fall-through is "
+             "panic!()); (ii) the characters after `#` for which scan_hash_token produces NumberPrefix are exactly the "
+             "prefix spellings parse_number accepts (its fall-through is panic!).")
+    scan = need(rep, rule, facts, "marwood::lex::scan")
+    sst = need(rep, rule, facts, "marwood::lex::scan_simple_token")
+    if scan is not None and sst is not None:
+        disp = set()
+        for bb, arms, other, t in char_switches(scan):
+            for v, tg in arms.items():
+                calls, _ = arm_effects(scan, tg, stop={other}, limit=3)
+                if calls and calls[0] == "marwood::lex::scan_simple_token":
+                    disp.add(v)
+        handled = set()
+        for bb, arms, other, t in char_switches(sst):
+            for v, tg in arms.items():
+                _, aggs = arm_effects(sst, tg, limit=2)
+                if any(a == TOKEN_TYPE for a, _ in aggs):
+                    handled.add(v)
+        rep.floor(rule, "characters dispatched to scan_simple_token", len(disp), 9)
+        miss = sorted(disp - handled)
+        extra = sorted(handled - disp)
+        key = "%s|scan->scan_simple_token" % rule
+        if miss:
+            rep.fail(rule, key, "lex::scan sends %s to scan_simple_token, which has no arm for them and panics" % (
+                [chr(c) for c in miss]), [sst.span])
+        else:
+            rep.ok(rule, key, "all %d characters dispatched to scan_simple_token have an arm there%s" % (
+                len(disp), (" (unreachable arms: %s)" % [chr(c) for c in extra]) if extra else ""), [sst.span])
+    sht = need(rep, rule, facts, "marwood::lex::scan_hash_token")
+    pn = need(rep, rule, facts, "marwood::parse::parse_number")
+    if sht is not None and pn is not None:
+        produced = set()
+        for bb, arms, other, t in char_switches(sht):
+            for v, tg in arms.items():
+                others = {x for x in arms.values() if x != tg} | {other}
+                _, aggs = arm_effects(sht, tg, stop=others, limit=12)
+                toks = [a for a in aggs if a[0] == TOKEN_TYPE]
+                if toks and toks[0] == (TOKEN_TYPE, "NumberPrefix"):
+                    produced.add(chr(v))
+        accepted = {s[1] for s, bb, t in str_eq_consts(pn) if len(s) == 2 and s[0] == "#"}
+        rep.floor(rule, "number prefix characters produced by the scanner", len(produced), 6)
+        key = "%s|scan_hash_token->parse_number" % rule
+        miss = sorted(produced - accepted)
+        if miss:
+            rep.fail(rule, key, "the scanner produces NumberPrefix for #%s but parse_number has no arm for it and panics"
+                     % ", #".join(miss), [pn.span])
+        else:
+            rep.ok(rule, key, "every NumberPrefix spelling the scanner produces (%s) is accepted by parse_number" % (
+                " ".join("#" + c for c in sorted(produced))), [pn.span])
+
+
+def r20a(ctx, rep, rule="R20a"):
+    facts = ctx["facts"]
+    rep.rule(rule, "bracket classes agree with the parser: an opener, by the parser's own definition, is a token "
+             "type whose arm in parse::parse hands off to a sub-parser that has a RightParen arm; every opener type "
+             "must be mentioned by syntax::find_matching_bracket (as a matched variant or a constructed constant), "
+             "otherwise that kind of bracket is invisible to the nesting counter.")
+    parse = None
+    for p, f in facts.fns.items():
+        if p == "marwood::parse::parse":
+            parse = f
+    fmb = need(rep, rule, facts, "marwood::syntax::find_matching_bracket")
+    if parse is None:
+        rep.anchor_lost(rule, "parse::parse")
+        return
+    if fmb is None:
+        return
+    sws = disc_switches(facts, parse, TOKEN_TYPE)
+    if not sws:
+        rep.anchor_lost(rule, "match on TokenType in parse::parse")
+        return
+    openers = {}
+    for v, tg in sws[0]["arms"].items():
+        calls, _ = arm_effects(parse, tg, stop={sws[0]["otherwise"]}, limit=3)
+        for c in calls[:1]:
+            g = facts.fn(c)
+            if g is not None and g.path != parse.path:
+                for sw in disc_switches(facts, g, TOKEN_TYPE):
+                    if "RightParen" in sw["arms"]:
+                        openers[v] = short_path(c)
+    rep.floor(rule, "opener token types according to the parser", len(openers), 2)
+    mentioned = set()
+    for sw in disc_switches(facts, fmb, TOKEN_TYPE):
+        mentioned |= set(sw["arms"])
+    for bb, j, s in fmb.stmts():
+        if s["rv"]["k"] == "agg" and s["rv"].get("adt") == TOKEN_TYPE:
+            mentioned.add(s["rv"]["variant"])
+    for v, sub in sorted(openers.items()):
+        key = "%s|opener|%s" % (rule, v)
+        if v in mentioned:
+            rep.ok(rule, key, "TokenType::%s (opens %s) is known to find_matching_bracket" % (v, sub), [fmb.span])
+        else:
+            rep.fail(rule, key, "TokenType::%s opens a bracketed datum in the parser (%s consumes through a RightParen) "
+                     "but find_matching_bracket never mentions it: such brackets are not matched and unbalance the "
+                     "nesting count of the ones around them" % (v, sub), [fmb.span])
+
+
+def r18d(ctx, rep, rule="R18d"):
+    facts = ctx["facts"]
+    rep.rule(rule, "encoder/decoder agreement for symbol names: string->symbol passes a character through unescaped "
+             "iff lex::is_initial_identifier / is_subsequent_identifier accept it, and symbol->string decodes with "
+             "parse_string, whose escape introducer is the backslash; the introducer must not be in the pass-through "
+             "set, otherwise a name containing it is decoded as an escape.")
+    ss = need(rep, rule, facts, "marwood::vm::builtin::symbol::string_symbol")
+    sy = need(rep, rule, facts, "marwood::vm::builtin::symbol::symbol_string")
+    ii = need(rep, rule, facts, "marwood::lex::is_initial_identifier")
+    ps = need(rep, rule, facts, "marwood::parse::parse_string")
+    if None in (ss, sy, ii, ps):
+        return
+    # decoder introducer: the char constant parse_string compares each input char with before decoding
+    intro = set()
+    for bb, j, s in ps.stmts():
+        rv = s["rv"]
+        if rv["k"] == "bin" and rv["op"] == "Eq":
+            for o in (rv["a"], rv["b"]):
+                c = op_const(o)
+                if c is not None and c.get("ty") == "char" and "int" in c:
+                    intro.add(c["int"])
+    uses_ps = any(callee(t) == ps.path for bb, t in sy.calls())
+    uses_ii = False
+    for c in facts.closures_of(ss) + [ss]:
+        for bb, t in c.calls():
+            if callee(t) in (ii.path, "marwood::lex::is_subsequent_identifier"):
+                uses_ii = True
+    if not uses_ps or not uses_ii or not intro:
+        rep.anchor_lost(rule, "string->symbol via is_*_identifier (%s) / symbol->string via parse_string (%s) / "
+                        "introducer constant (%s)" % (uses_ii, uses_ps, sorted(intro)))
+        return
+    accepted = set()
+    for bb, j, s in ii.stmts():
+        rv = s["rv"]
+        if rv["k"] == "bin" and rv["op"] == "Eq":
+            for o in (rv["a"], rv["b"]):
+                c = op_const(o)
+                if c is not None and c.get("ty") == "char" and "int" in c:
+                    accepted.add(c["int"])
+    rep.floor(rule, "explicit characters accepted by is_initial_identifier", len(accepted), 10)
+    for i in sorted(intro):
+        key = "%s|introducer|%s" % (rule, "U+%04X" % i)
+        if i in accepted:
+            rep.fail(rule, key, "the decoder's escape introducer %r is passed through unescaped by the encoder "
+                     "(is_initial_identifier accepts it): (symbol->string (string->symbol s)) differs from s when s "
+                     "contains it" % chr(i), [ii.span])
+        else:
+            rep.ok(rule, key, "the decoder's escape introducer %r is escaped by the encoder" % chr(i), [ii.span])
